@@ -940,7 +940,7 @@ class Parser:
         block_start = self.current
         if self.accept('lparen'):
             lpar = self.create_node(SymbolNode, block_start)
-            e = self.statement()
+            e = self.operand(self.statement())
             self.block_expect('rparen', block_start)
             rpar = self.create_node(SymbolNode, self.previous)
             return ParenthesizedNode(lpar, e, rpar)
